@@ -290,6 +290,14 @@ def run_oracles(si, sm, viol, cover):
                 viol("C08", None, "Arena::collection_phase disagrees with the collector state: %s" % post["cp"], k)
             dp1 = post["dp"] == "1"
             cover["C08:%s:from%d:dp%s" % (how, cp0, pre["dp"])] += 1
+            # C09 (sleep clause): a collection call entered with ZERO debt only does collection work (credits grow, debits
+            # do not), and a cycle that ends with zero debt carries none over: the debt must still read zero afterwards
+            # (in particular: asleep, nothing allocated since, no phantom debt)
+            dz0, dz1 = scaled_val(pre["q"].split(",")[2]), scaled_val(post["q"].split(",")[2])
+            if not faulted and dz0 == 0 and pre["dp"] == "0" and dz1 is not None and dz1 > 0:
+                viol("C09", None, "%s was entered with zero allocation debt and returned with debt %d (/4096) in phase %d: a cycle that "
+                                  "finished with no debt carried over reports phantom debt" % (how, dz1, cp1), k)
+            cover["C09:zero-debt-stays-zero:%s" % ("checked" if (not faulted and dz0 == 0) else "n/a")] += 1
             if not faulted:
                 if how in ("md", "fm"):
                     if cp0 == 3 and heap_part(pre) != heap_part(post):
